@@ -69,6 +69,12 @@ theorem minsum_scale_invariant (scale a cl : ℚ) (ha : 0 < a) (H : Graph) (llr 
   have := mpDecode_scale scale 0 a cl ha H llr t msgPos
   rwa [mul_zero] at this
 
+/-- the implementation computes the variable-to-check message as `marginal − own message`; the model as
+`channel LLR + sum of the other messages`: the two are equal on every edge of every graph -/
+theorem marginal_minus_own (H : Graph) (llr : List ℚ) (M : Msgs) (c j : Nat) (hc : c < H.length) (hj : j < deg H c) :
+    llr.getD (varAt H c j) 0 + inSum H M (varAt H c j) c j = marginal H llr M (varAt H c j) - msgAt M c j :=
+  SoftProofs.marginal_minus_own H llr M c j hc hj
+
 /-! ## non-vacuity -/
 example : wagnerDecode [-21/10, 3/2, -9/5, 1/5] = [true, false, true] := by decide +kernel
 example : mpDecode (checkMS 1 0) [[0,1,3],[1,2,4],[0,2,5]] [1,1,-1,1,-1,-1] 500 5 [0,1,2] = [false, false, true] := by
